@@ -1,10 +1,10 @@
 """C01 / C10 / C18: the native iteration engine executes trees exactly; payloads are honoured and set once.
 
 ``iteration.Engine.execute`` is verified arm by arm against the row semantics.  The RowIterable classes it
-instantiates (generator-backed) are represented by *class contracts* (what iterating an instance yields, in
-terms of what iterating its target yields); those contracts are not proved here -- they are checked by the
-bounded native stand-in replay/bounded_rowiter.py and listed as assumptions.  The Sort arm (groupby + several
-stable list.sort passes, inline in execute) is likewise covered by that stand-in.
+instantiates are covered by contracts/rowiter.py: constructors, ``__iter__`` bodies (generators as loops with a
+ghost output sequence) and the conversion methods are proved from the current source, which yields the class
+lemmas ``content(o) == F(attributes of o)`` used here.  The Sort arm (groupby + several stable list.sort passes,
+inline in execute) is still a summary covered by the bounded stand-in replay/bounded_rowiter.py.
 """
 from __future__ import annotations
 
@@ -37,46 +37,6 @@ def payload_inv(c, heap):
     r = z3.Const("r", smt.Ref)
     p = z3.Select(heap, r)
     return z3.ForAll([r], z3.Implies(z3.And(r != smt.NONE, p != smt.NONE), same_rows(V.content(p), V.rows(r))), patterns=[z3.Select(heap, r)])
-
-
-def _construct(ex, ci, args, kwargs, st, node):
-    if ci.name not in ROWITER:
-        return None
-    it = SV(TRefT(ci), smt.fresh_const(f"new_{ci.name}", smt.Ref), fresh=True)
-    st.assume(it.z != smt.NONE, smt.typ(it.z) == ex.types.cid(ci), smt.born(it.z) == ex.born_clock)
-    ex.born_clock += 1
-    ex.set_known_class(it, ci, st)
-    c = V.content(it.z)
-    a = list(args)
-    if ci.name == "RowSequence":
-        rows = a[0]
-        if isinstance(rows, PyList) and not rows.items:
-            # a Python [] is the empty row sequence over any column set; inside execute() it stands for the relation's
-            rel = st.env.get("relation")
-            if isinstance(rel, SV):
-                st.assume(c == V.REMPTY(V.rcols(V.rows(rel.z))))
-            else:
-                st.assume(V.rlen(c) == 0)
-        elif isinstance(rows, PyList) and len(rows.items) == 1 and isinstance(rows.items[0], PyDict) and not rows.items[0].keys:
-            st.assume(c == V.RUNIT)
-        elif isinstance(rows, SV) and rows.z.sort() == V.RS:
-            st.assume(c == rows.z)
-        else:
-            return None
-    elif ci.name == "CalculationRowIterable":
-        st.assume(c == V.s_mapc(a[1].z, a[2].z, V.content(a[0].z)))
-    elif ci.name == "ProjectionRowIterable":
-        st.assume(c == V.s_proj(a[1].z, V.content(a[0].z)))
-    elif ci.name == "SelectionRowIterable":
-        st.assume(c == V.s_filterc(a[1].z, V.content(a[0].z)))
-    elif ci.name == "ChainRowIterable":
-        items = a[0].items
-        if len(items) != 2:
-            return None
-        st.assume(c == V.s_chain(V.content(items[0].z), V.content(items[1].z)))
-    else:
-        return None
-    return ex.ok(it, st)
 
 
 def _builtin(ex, name, args, kwargs, st, node):
@@ -120,24 +80,14 @@ def _case_body(ex, stmt, case, st):
 
 def register(reg):
     reg.load("c20")
+    reg.load("rowiter")  # the RowIterable classes: class lemmas proved from their bodies
     reg.add_hook("case_body", _case_body)
-    reg.add_hook("construct", _construct)
     if _height_axioms not in reg.global_axioms:
         reg.global_axioms.append(_height_axioms)
     reg.add_hook("builtin", _builtin)
     TIt = TRefT(reg_cls(reg, "RowIterable"))
     TCall = TRefT(None)
     P = ("C01", "C10")
-    NOTE = "class contract of a generator-backed RowIterable: not proved, bounded-checked by replay/bounded_rowiter.py"
-
-    # ---- class contracts of the row iterables (assumed, bounded-checked)
-    k = reg.contract("iteration._row_iterable:RowIterable.to_mapping", virtual=True, assumed=True, properties=P, note=NOTE, result_td=TIt)
-    k.ens("keyed-deduplication", lambda c: B(V.content(c.result.z) == V.s_dedup_key(c.unique_key.z, V.content(c.self.z))))
-    k = reg.contract("iteration._row_iterable:RowIterable.sliced", virtual=True, assumed=True, properties=P, note=NOTE, result_td=TIt)
-    k.ens("positional-window", lambda c: B(V.content(c.result.z) == V.s_slice(c.start.z, c.stop.z, V.content(c.self.z))))
-    k = reg.contract("iteration._row_iterable:RowIterable.materialized", virtual=True, assumed=True, properties=P, note=NOTE, result_td=TIt)
-    k.ens("same-rows", lambda c: B(V.content(c.result.z) == V.content(c.self.z)))
-
     # ---- converted callables denote the expression (proved for the portable operator set under C12; assumed here)
     k = reg.contract("iteration._engine:Engine.convert_column_expression", assumed=True, properties=P, result_td=TCall,
                      note="closure(row) == value of the expression on row: subject of C12")
